@@ -53,7 +53,7 @@ def build (n : ℕ) (j : Json) : J.R (Rep n K) := do
   let simple := (optBool j "simple").getD true
   let rels ← (← arr (fieldD j "relations" (.arr #[]))).mapM str
   let hist ← arr (← field j "hist")
-  let mut ρ : Rep n K := { parseSimple := simple, relations := rels.toList.map (parseWord true) }
+  let mut ρ : Rep n K := { parseSimple := simple, relations := rels.toList.map (parseWord simple) }
   for h in hist do
     let g ← strf h "g"
     let A ← dmat io n (← field h "m")
@@ -110,10 +110,10 @@ def query (n : ℕ) (ρ : Rep n K) (q : Json) : M? Json := do
   | "asym" => pure (.arr (ρ.asymGens.map Json.str).toArray)
   | "derived" => derived io n ρ q
   | "diff" =>
-    let bl ← ρ.differential (parseWord true (← strf q "w"))
+    let bl ← ρ.differential (parseWord ρ.parseSimple (← strf q "w"))
     pure (.arr (bl.map (outMat io)).toArray)
   | "diffat" =>
-    pure (outMat io (← ρ.differentialAt (parseWord true (← strf q "w")) (← strf q "g")))
+    pure (outMat io (← ρ.differentialAt (parseWord ρ.parseSimple (← strf q "w")) (← strf q "g")))
   | "cocycle" =>
     let rows ← ρ.cocycleMatrix
     pure (.arr (rows.map fun bl => Json.arr (bl.map (outMat io)).toArray).toArray)
@@ -150,9 +150,13 @@ def parseOp (j : Json) : J.R Json := do
   return .arr ((parseWord (← boolf j "simple") (← strf j "w")).map Json.str).toArray
 def validOp (j : Json) : J.R Json := do return .bool (validName (← strf j "g"))
 def foxOp (j : Json) : J.R Json := do
-  match foxDeriv invertGen (← strf j "g") (parseWord true (← strf j "w")) with
+  -- "wl": a tuple of generator names (words of a parse_simple=False representation); "w": a string
+  let w ← match j.getObjVal? "wl" with
+    | .ok l => do pure ((← (← arr l).mapM str).toList)
+    | .error _ => do pure (parseWord true (← strf j "w"))
+  match foxDeriv invertGen (← strf j "g") w with
   | none => throw "IndexError"
-  | some d => return .arr (d.map fun kc => Json.arr #[outWord kc.1, .str (toString kc.2)]).toArray
+  | some d => return .arr (d.map fun kc => Json.arr #[.arr (kc.1.map Json.str).toArray, .str (toString kc.2)]).toArray
 def commOp (j : Json) : J.R Json := do
   return outWord (commutator invertGen (parseWord true (← strf j "u")) (parseWord true (← strf j "v")))
 
